@@ -190,19 +190,18 @@ pub fn get_undo_operations(txn: &mut dyn StorageTxn) -> (r: Result<Operations>)
 {
     let local_ops = txn.unsynced_operations()?;
     let last_undo_op_idx = rposition_by(&local_ops, Operation::is_undo_point);
-    if let Some(last_undo_op_idx) = last_undo_op_idx {
-        proof {
-            let u = local_ops@;
-            let k = last_undo_op_idx as int;
+    proof {
+        // sequence facts for whichever way the result is cut out of the list (stated before the branch, for every cut point)
+        let u = local_ops@;
+        assert(u.skip(0) =~= u);
+        assert forall|k: int| 0 <= k <= u.len() implies u.subrange(k, u.len() as int) == #[trigger] u.skip(k) && u.skip(u.len() - u.skip(k).len()) == u.skip(k) by {
             assert(u.subrange(k, u.len() as int) =~= u.skip(k));
             assert(u.skip(u.len() - u.skip(k).len()) =~= u.skip(k));
         }
+    }
+    if let Some(last_undo_op_idx) = last_undo_op_idx {
         Ok(local_ops[last_undo_op_idx..].to_vec())
     } else {
-        proof {
-            let u = local_ops@;
-            assert(u.skip(0) =~= u);
-        }
         Ok(local_ops)
     }
 }
